@@ -2,7 +2,8 @@
 
 Theorems: lean/SkoolVerif/Props/C04.lean (mode/weight tables of skoolparser.Mode vs
 skool2bin.BinWriter, layout of BinWriter._add_instructions vs a sequential assembler over the
-instruction list Mode.apply_asm_directives builds, operand relocation, numeral base conversion).
+instruction list Mode.apply_asm_directives builds, label locations vs address_map and operand
+relocation, the #PEEK snapshot on fixed-layout files, numeral base conversion).
 Tie: hand models + correspondence (this file).  E2E: skool2asm.main output assembled by the
 independent mini assembler (harness/indep/miniasm.py) vs skool2bin.main output, per mode x base x
 case x -c; #PEEK probes."""
@@ -424,7 +425,7 @@ class G:
             return rng.choice(pool)
         lo, hi = self.base, self.end
         while True:
-            v = rng.choice((0, 1, 255, 256, 257, 16384, 23296, 65535, rng.randrange(65536)))
+            v = rng.choice((0, 1, 255, 256, 257, 16384, 22528, 23296, 65535, rng.randrange(65536)))
             if not lo - 8 <= v <= hi + 8:
                 return v
 
@@ -483,7 +484,7 @@ class G:
     def fill_op(self, t, addr_hint):
         op = self.fill(t, addr_hint)
         if op is None:   # relative jump with no target in range
-            op = self.fill('JP {a}' if False else 'LD A,{n}', addr_hint)
+            op = self.fill('LD A,{n}', addr_hint)
         return op
 
     def render(self):
@@ -537,8 +538,7 @@ class G:
                 astr = '     ' if a is None else rng.choice(('%05d' % a, '%05d' % a, '$%04X' % a, '$%04x' % a))
                 line = ins['ctl'] + astr + ' ' + op
                 if ins['comment']:
-                    line = line.ljust(24) + ' ; ' + rng.choice(('Comment', 'Refers to 12345', 'x', '{Multi', '}'))
-                    line = line.replace('{Multi', 'Multi').replace(' ; }', ' ; end')
+                    line = line.ljust(24) + ' ; ' + rng.choice(('Comment', 'Refers to 12345', 'x', 'Multi', 'end'))
                 res.append(line)
         return '\n'.join(res) + '\n'
 
@@ -742,7 +742,11 @@ def gen_layout(rng):
             toks.append('o' + tok(o))
             for fl, so in subs:
                 toks.append('S%s:%s' % (fl, tok(so)))
-                text.append('@isub=%s%s' % ('' if fl == '_' else fl, rend(so)))
+                # every directive instruction and every addressed line gets a label (labels do not
+                # influence the layout; they make the label locations observable)
+                text.append('@isub=%s%s%s' % ('' if fl == '_' else fl, 'C%d_%d: ' % so if so else '', rend(so)))
+            if not addressless:
+                text.append('@label=A%d_%d' % (addr, len(toks)))
             ctl = 'c' if i == 0 else ' '
             text.append((ctl + ('     ' if addressless else '%05d' % addr) + ' ' + rend(o)).rstrip() if not addressless
                         else ctl + '      ' + rend(o))
@@ -782,28 +786,40 @@ def _asm_err(msg):
 
 
 def real_asm_layout(tools, text):
+    tools.last_labels = {}
     st, out, err = tools.asm(text, ['-w'])
     if st != 'ok':
         return _asm_err(out)
     image, info = miniasm.assemble(out, tools.assembler)
-    if info['errors']:
-        e = info['errors'][0]
+    errors = [e for e in info['errors'] if not e.startswith(('label before ORG', 'unresolved symbol'))]   # labels are not modelled
+    if errors:
+        e = errors[0]
         for k, v in (('instruction before ORG', 'noOrg'), ('bad ORG', 'badOrg'), ('cannot size', 'assemble'), ('cannot assemble', 'assemble')):
             if k in e:
                 return 'err ' + v
         return 'err other:' + e[:60]
+    tools.last_labels = info['labels']
     return ('ok ' + ' '.join('%d:%s' % (a, _tok_of(op)) for a, op, data in info['placed'])).strip()
 
 
-def real_par_layout(tools, text):
+def real_par_layout(tools, text, toks=()):
     fn = tools._file(text)
     try:
         par = tools.skoolparser.SkoolParser(fn, asm_mode=1)
     except tools.skoolkit.SkoolParsingError as e:
-        return _asm_err(str(e))
+        return _asm_err(str(e)), None
     except (IndexError, TypeError) as e:
-        return _asm_err(type(e).__name__)
+        return _asm_err(type(e).__name__), None
+    # the macro-visible snapshot around every line address
+    snap = {}
+    for t in toks:
+        if t.startswith('L') and t != 'L-':
+            for a in range(int(t[1:]), int(t[1:]) + 4):
+                snap[a] = par.snapshot[a & 65535]
     res = []
+    labels = getattr(tools, 'last_labels', {})
+    pairs = [(i.address, labels.get(i.asm_label)) for e in par.memory_map for i in e.instructions if i.address is not None]
+    tools.last_pos = None if any(v is None for _, v in pairs) else ' '.join('%d=%d' % p for p in pairs)
     for e in par.memory_map:
         res.append('E')
         for i in e.instructions:
@@ -813,10 +829,10 @@ def real_par_layout(tools, text):
                 v = tools.skoolkit.parse_int(i.org)
                 org = 'x' if v is None else str(v)
             res.append('%s/%s/%s' % ('-' if i.address is None else i.address, _tok_of(i.operation), org))
-    return ('ok ' + ' '.join(res)).strip()
+    return ('ok ' + ' '.join(res)).strip(), snap
 
 
-def corr_layout(chk, tools):
+def corr_layout(chk, tools, snaps):
     rng = chk.rng
     ops, impl = [], []
     for n in range(chk.scale(900, 12000)):
@@ -824,9 +840,13 @@ def corr_layout(chk, tools):
         line = ' '.join(toks)
         rb = real_bin_layout(tools, text)
         ra = real_asm_layout(tools, text)
-        rp = real_par_layout(tools, text)
+        rp, snap = real_par_layout(tools, text, toks)
+        snaps.append(snap)
         ops += ['bin ' + line, 'asm ' + line, 'par ' + line]
         impl += [rb, ra, rp]
+        if ra.startswith('ok') and rp.startswith('ok') and tools.last_pos is not None:
+            ops.append('pos ' + line)
+            impl.append(('ok ' + tools.last_pos).strip())
         chk.case('corr-layout-' + ('agree' if rb.split(' | ')[0] == ra else 'bin!=asm'), (line,),
                  {'tokens': line, 'bin': rb[:200], 'asm': ra[:200]} if n < 3 else None)
         chk.dist['corr-bin-' + rb.split()[0] + ('-' + rb.split()[1] if rb.startswith('err') else '')] += 1
@@ -868,6 +888,27 @@ def corr_replace_nums(chk, tools):
         impl.append(out)
         chk.case('corr-replace-nums', ('rn', text, tag, skip, prefix) if got != text else None,
                  {'text': text, 'fmt': tag, 'skip_bit': skip, 'prefix': prefix, 'result': got} if n < 4 else None)
+    return ops, impl
+
+
+# ---------------------------------------------------------------------------------------------
+# correspondence: convert_case
+# ---------------------------------------------------------------------------------------------
+CC_PIECES = ['ld ', 'LD ', 'a', 'A', 'z', 'Z', '"', '"', '\\', '\\"', ' ', '\t', ',', '(ix+', 'IXh', '$ff', '$FF', '1', ';', 'defm ',
+             'DEFB ', '"a"', '"A\\"b"', "af'", '@', '[', '`', '{', '~']
+
+
+def corr_convert_case(chk, tools):
+    rng = chk.rng
+    cc = tools.assembler.convert_case
+    ops, impl = [], []
+    for n in range(chk.scale(1500, 20000)):
+        text = ''.join(rng.choice(CC_PIECES) for _ in range(rng.randrange(0, 10)))
+        lower = rng.random() < 0.5
+        got = cc(text, lower)
+        ops.append('ccase %d %s' % (int(lower), ' '.join(str(ord(c)) for c in text)))
+        impl.append(('ok ' + ' '.join(str(ord(c)) for c in got)).strip())
+        chk.case('corr-convert-case', ('cc', text, lower) if got != text else None)
     return ops, impl
 
 
@@ -1049,6 +1090,34 @@ def spec_implication(chk, tools, cases):
     chk.extra['layout_cases_inside_documented_usage'] = n_ok
 
 
+def snapshot_correspondence(chk, lines, snaps):
+    """Model `parPokes` vs the real parser snapshot: replay the model's poke list (an operation
+    (size, id) assembles to `id` repeated `size` times) and compare the bytes around every line."""
+    model = chk.run_driver('C04', ['pokes ' + line for line in lines])
+    if model is None:
+        return
+    diffs = []
+    for line, snap, m in zip(lines, snaps, model):
+        if snap is None or not m.startswith('ok'):
+            if (snap is None) != m.startswith('err'):
+                diffs.append({'op': 'pokes ' + line, 'impl': 'parser ' + ('failed' if snap is None else 'succeeded'), 'model': m})
+            continue
+        mem = {}
+        for t in m.split()[1:]:
+            a, o = t.split(':')
+            size, ident = map(int, o.split('.'))
+            for k in range(size):
+                mem[int(a) + k] = ident
+        chk.corr_cases += 1
+        bad = [a for a in snap if snap[a] != mem.get(a, 0)]
+        if bad:
+            chk.corr_diffs += 1
+            diffs.append({'op': 'pokes ' + line, 'impl': 'snapshot ' + ' '.join(f'{a}={snap[a]}' for a in bad[:6]),
+                          'model': ' '.join(f'{a}={mem.get(a, 0)}' for a in bad[:6])})
+    if diffs:
+        chk.breaks.append({'kind': 'correspondence', 'name': 'parPokes model vs SkoolParser snapshot', 'detail': diffs[:5]})
+
+
 def run(chk):
     chk.rule = ('e2e: generated skool files (1-4 entries of 1-7 instructions from ~80 Z80 instruction templates and DEFB/DEFM/DEFS/DEFW '
                 'with strings, characters, expressions, numbers in decimal/$hex/%binary; operands that are addresses of other '
@@ -1058,7 +1127,8 @@ def run(chk):
                 'two-pass assembler and compared byte for byte with skool2bin.main in the same mode; #PEEK probes; mode none via '
                 'the HTML-mode parser snapshot. Half of the files keep the layout fixed (all checks), half move code (references '
                 'only to labelled instructions). non-trivial = distinct (file, mode, options). Correspondence: mode tables '
-                '(all 20 mode pairs), winner selection, layout token streams (3 ops each), _replace_nums strings.')
+                '(all 20 mode pairs), winner selection, layout token streams (bin/asm/par/pos/pokes/spec ops), _replace_nums and '
+                'convert_case strings.')
     chk.trusted += ['hand models lean/SkoolVerif/Model/{AsmModes,AsmLayout,ReplaceNums}.lean tied by correspondence (harness/props/c04.py)',
                     'reference layout lean/SkoolVerif/Spec/AsmLayout.lean (written from sphinx/source/asm.rst)',
                     'harness/indep/miniasm.py (ORG/EQU/labels/sequential placement) + skoolkit.z80.Assembler for single-operation encodings',
@@ -1068,9 +1138,18 @@ def run(chk):
         'entry; a removed line carries no directives of its own; `|` only after `|` in a chain; every placed operation assembles. '
         'Outside it the models still mirror the code (correspondence) and a concrete disagreement is proved (layout_agree_full_false).',
         'Operations are abstract with an address-independent size; label/comment handling, @bytes sizing, the -S/-E window, @if and '
-        '@bank are not modelled (e2e only). Operand relocation: BinWriter.address_map is proved to be the reference map; that the ASM '
-        'label of a line resolves to the same address is e2e only.',
-        '_replace_nums: ASCII only; the theorem is at token level (re-tokenising the output string is not proved: `12AB` -> `$0CAB`).',
+        '@bank are not modelled (e2e only). Operand relocation is proved at the level of addresses (BinWriter.address_map = reference '
+        'map; the ASM label of every line lands on the mapped address; relocation_agrees needs the operand to be labelled or unmoved - '
+        'relocation_agrees_full_false is the known finding); the regex-driven replacement of operand TEXT by labels '
+        '(_replace_addresses/_get_label, shared by both tools) is e2e only.',
+        'Snapshot (#PEEK): the parser is proved to poke the same (address, operation) sequence as skool2bin for fixed-layout files '
+        '(Spec.specLayoutFixed defined); outside that class peek_agrees_full_false is the known finding. @bytes, @defb/@defs/@defw, '
+        '@assemble and HTML mode are e2e only.',
+        'convert_case: ASCII only (Python upper()/lower()/isspace() on other characters are not modelled; non-ASCII letters outside '
+        'strings are left alone by the model); the -u fix-up of IXh/IXl (re.sub) is e2e only.',
+        '_replace_nums: ASCII only; value preservation of the output STRING is proved under the side condition that no decimal numeral is '
+        'directly followed by a hexadecimal letter (`12AB` -> `$0CAB` is the counterexample); how the assembler tokenises operands '
+        '(its own regex, no look-behind) is e2e only.',
         'E2E exclusions (documented design, not reported): (a) in a mode that moves code an operand naming an UNLABELLED instruction is '
         'relocated by skool2bin but left numeric by skool2asm, which warns (witness reported as known finding unlabelled-target-after-move) '
         '- generated moving files refer only to explicitly labelled instructions; (b) the parser snapshot (#PEEK) is laid out by skool '
@@ -1086,13 +1165,16 @@ def run(chk):
         chk.leanchecker([PROPS])
     # correspondence
     ops, impl = corr_modes(chk, tools)
-    o2, i2 = corr_layout(chk, tools)
+    snaps = []
+    o2, i2 = corr_layout(chk, tools, snaps)
     o3, i3 = corr_replace_nums(chk, tools)
-    ops, impl = ops + o2 + o3, impl + i2 + i3
+    o4, i4 = corr_convert_case(chk, tools)
+    ops, impl = ops + o2 + o3 + o4, impl + i2 + i3 + i4
     model = chk.run_driver('C04', ops)
     chk.compare('C04 models vs skoolparser / skool2bin / skool2asm', ops, impl, model)
-    cases = [(o2[k][4:], i2[k], i2[k + 1]) for k in range(0, len(o2), 3)]
+    cases = [(o2[k][4:], i2[k], i2[k + 1]) for k in range(len(o2)) if o2[k].startswith('bin ')]
     spec_implication(chk, tools, cases)
+    snapshot_correspondence(chk, [c[0] for c in cases], snaps)
     # the property itself
     probes(chk, tools)
     e2e(chk, tools)
